@@ -15,6 +15,7 @@ from ..pw import Eval, M, E, NODE, I
 from .. import signs
 
 EXPLANATION = __doc__
+from ..pred import resolve, conj  # noqa: E402
 RELS = {U + "pa", U + "ch", U + "neighbors", U + "adj", U + "na"}
 
 
@@ -255,7 +256,18 @@ def separates_rules(rep, prog):
     rets = S.select("return", qname=q)
     f_rets = [r for r in rets if is_const(r.value, False)]
     t_rets = [r for r in rets if is_const(r.value, True)]
+    # `return True` straight away when A or B is empty: no pair, no path - what the loops return after zero rounds
+    def no_pairs(r_):
+        empties = [npred(("cmp", "==", ("ext", "len", (("param", nm_),), ()), ("const", 0)), True) for nm_ in ("A", "B")] + [("empty", ("param", nm_)) for nm_ in ("A", "B")]
+        got = resolve(conj(r_.path[-1:]))
+        return bool(r_.path) and (any(e_ in got for e_ in empties) or (r_.path[-1][1] is True and npred(r_.path[-1][0], True)[0] == "or" and all(x_ in empties for x_ in npred(r_.path[-1][0], True)[1])))
+    trivial_true = [r for r in t_rets if no_pairs(r)]
+    t_rets = [r for r in t_rets if r not in trivial_true]
+    rets = [r for r in rets if r not in trivial_true]
     shape = len(f_rets) >= 1 and len(t_rets) == 1 and len(rets) == len(f_rets) + 1
+    if not shape and calls and len(rets) > len(f_rets) + 1:
+        rep.unk("SEP.outcome", fwhere(f), "separates has %d return statements besides the early `False`: which of them is the verdict after all paths is not read" % (len(rets) - len(f_rets)))
+        return
     if not shape or not calls:
         rep.bad("SEP.outcome", fwhere(f), "outcome is not `False as soon as some path avoids S, True after all paths were inspected`")
         return
